@@ -68,3 +68,51 @@ package fuse
 //@   loop 1 invariant [no-skip] n_set ==> n != 0
 //@   loop 1 invariant [cursor] 0 <= op.BytesRead && op.BytesRead <= len(op.Dst) && offset <= i && i <= len(children) && offset >= 0
 //@   ensures [past-end] old(op.Offset) > len(children) ==> err != nil
+
+// ---- read-only mount: file reads and tree construction (C17) ------------------------------------
+// a file read serves the entry registered for the inode, at the asked offset, into the caller's buffer
+//@ func (*readOnlyFsInternal).ReadFile
+//@   call formKey#1 assert [key-of-inode] $id == op.Inode
+//@   call readAtBundle#1 assert [asked-window] $destination == op.Dst && $offset == op.Offset
+//@   call readAtBundle#1 bind got = $ret0
+//@   call readAtBundle#1 bind rerr = $ret1
+//@   ensures [bytes-reported] got_set ==> op.BytesRead == got && err == rerr
+//@   ensures [unknown-inode] !got_set ==> err != nil
+
+// the bytes come from the blob named by the entry's hash (streamed) or from the staged file of the
+// entry's path (not streamed), read at the asked offset into the given buffer
+//@ func (*readOnlyFsInternal).readAtBundle
+//@   call GetAt#1 assert [staged-file] $key == file.fullPath
+//@   call ReadAt#1 assert [window] $p == destination && $off == offset
+//@   call ReadAt#1 bind n1 = $ret0
+//@   call KeyFromString#1 assert [hash-of-entry] $0 == file.hash
+//@   call ReadAt#2 assert [window] $p == destination && $off == offset
+//@   call ReadAt#2 bind n2 = $ret0
+//@   ensures [count-as-read] (n1_set ==> ret0 == n1) && (n2_set ==> ret0 == n2)
+
+//@ func (*readOnlyFsInternal).LookUpInode
+//@   call formLookupKey#1 assert [parent-and-name] $id == op.Parent && $childName == op.Name
+//@   call Get#1 bind hit = $ret1
+//@   ensures [absent-is-enoent] hit_set && !hit ==> err != nil
+//@   ensures [found-is-served] hit_set && hit ==> err == nil
+
+//@ func (*readOnlyFsInternal).GetInodeAttributes
+//@   call formKey#1 assert [key-of-inode] $id == op.Inode
+//@   call Get#1 bind hit = $ret1
+//@   ensures [absent-is-enoent] hit_set && !hit ==> err != nil
+
+// a file entry is registered under its inode, under (parent, base name), and appended to the
+// parent's listing with the next offset
+//@ func (*readOnlyFsInternal).insertFsEntry
+//@   call formKey#1 assert [by-inode] $id == fsEntry.iNode
+//@   call Insert#1 assert [entry-by-inode] as($2, FsEntry) == fsEntry
+//@   call formLookupKey#1 assert [by-parent-and-name] $id == parentInode && $childName == base
+//@   call Insert#2 assert [entry-by-name] as($2, FsEntry) == fsEntry
+//@   call append#1 assert [listed-once-with-next-offset] $1[0].Offset == len($0) + 1 && $1[0].Inode == fsEntry.iNode && $1[0].Name == base && $1[0].Type == fuseutil.DT_File
+
+//@ func (*readOnlyFsInternal).insertDirEntry
+//@   call formKey#1 assert [by-inode] $id == dirFsEntry.iNode
+//@   call Insert#2 assert [entry-by-inode] as($2, FsEntry) == dirFsEntry
+//@   call formLookupKey#1 assert [by-parent-and-name] $id == parentInode
+//@   call Insert#3 assert [entry-by-name] as($2, FsEntry) == dirFsEntry
+//@   call append#1 assert [listed-once-with-next-offset] $1[0].Offset == len($0) + 1 && $1[0].Inode == dirFsEntry.iNode && $1[0].Type == fuseutil.DT_Directory
